@@ -247,7 +247,7 @@ Qed.
 Lemma sess_write_kind eager bufs s :
   s_kind (fst (sess_write eager bufs s)) = s_kind s /\ s_id (fst (sess_write eager bufs s)) = s_id s.
 Proof.
-  unfold sess_write. destruct (sess_units (s_kind s) bufs); [|split; reflexivity].
+  unfold sess_write, sess_write_gen. destruct (sess_units (s_kind s) bufs); [|split; reflexivity].
   destruct (enq_all eager l (s_conn s)). split; reflexivity.
 Qed.
 
@@ -269,7 +269,7 @@ Lemma Inv_sess_write eager bufs s offered :
   Inv offered (s_conn s) ->
   Inv (offered ++ offered_units (s_kind s) bufs) (s_conn (fst (sess_write eager bufs s))).
 Proof.
-  intros HI. unfold sess_write, offered_units.
+  intros HI. unfold sess_write, sess_write_gen, offered_units.
   destruct (sess_units (s_kind s) bufs) as [us|].
   - pose proof (Inv_enq_all us eager offered (s_conn s) HI) as H.
     destruct (enq_all eager us (s_conn s)) as [c ws]. exact H.
@@ -677,7 +677,7 @@ Qed.
 Lemma sess_write_b_error bufs s :
   sess_write_b BehError bufs s = Some (s_conn (fst (sess_write false bufs s))).
 Proof.
-  unfold sess_write_b, sess_write. destruct (sess_units (s_kind s) bufs) as [us|]; [|reflexivity].
+  unfold sess_write_b, sess_write, sess_write_gen. destruct (sess_units (s_kind s) bufs) as [us|]; [|reflexivity].
   rewrite enq_all_b_error. destruct (enq_all false us (s_conn s)). reflexivity.
 Qed.
 
@@ -747,7 +747,7 @@ Lemma quiet_step ev s : is_rtp (s_kind s) = false -> quiet (s_id s) ev ->
 Proof.
   intros Hk Hq. unfold sess_wrote. destruct (srun1_kind ev s) as [Hk' _]. rewrite Hk', Hk.
   unfold srun1. destruct ev; cbn [local fst]; cbn in Hq.
-  - unfold sess_write. destruct (sess_units (s_kind s) bufs) as [us|]; [|split; reflexivity].
+  - unfold sess_write, sess_write_gen. destruct (sess_units (s_kind s) bufs) as [us|]; [|split; reflexivity].
     pose proof (enq_all_wrote us eager (s_conn s)) as H. destruct (enq_all eager us (s_conn s)) as [c ws].
     cbn [fst s_conn s_stale] in *. split; [assumption|reflexivity].
   - unfold on_conn. destruct (Nat.eqb (s_id s) i); [|split; reflexivity]. cbn. split; [apply take_wrote|reflexivity].
@@ -794,7 +794,7 @@ Qed.
 Lemma closed_srun1 ev s : c_closed (s_conn s) = true -> c_closed (s_conn (srun1 ev s)) = true.
 Proof.
   intros H. unfold srun1. destruct ev; cbn [local fst].
-  - unfold sess_write. destruct (sess_units (s_kind s) bufs) as [us|]; [|exact H].
+  - unfold sess_write, sess_write_gen. destruct (sess_units (s_kind s) bufs) as [us|]; [|exact H].
     pose proof (closed_enq_all us eager (s_conn s) H) as H1. destruct (enq_all eager us (s_conn s)). exact H1.
   - unfold on_conn. destruct (Nat.eqb (s_id s) i); [cbn; apply closed_take|]; exact H.
   - unfold on_conn. destruct (Nat.eqb (s_id s) i); [cbn; apply closed_wdone|]; exact H.
@@ -858,7 +858,7 @@ Lemma step_wrote_mono ev s : not_sweep ev ->
   c_wrote (s_conn s) <= c_wrote (s_conn (srun1 ev s)) /\ s_stale (srun1 ev s) = s_stale s.
 Proof.
   intros Hn. unfold srun1. destruct ev; cbn [local fst]; cbn in Hn; try contradiction.
-  - unfold sess_write. destruct (sess_units (s_kind s) bufs) as [us|]; [|cbn; split; [lia|reflexivity]].
+  - unfold sess_write, sess_write_gen. destruct (sess_units (s_kind s) bufs) as [us|]; [|cbn; split; [lia|reflexivity]].
     pose proof (enq_all_wrote us eager (s_conn s)) as H. destruct (enq_all eager us (s_conn s)) as [c ws].
     cbn [fst s_conn s_stale] in *. split; [lia|reflexivity].
   - unfold on_conn. destruct (Nat.eqb (s_id s) i).
@@ -956,7 +956,7 @@ Proof. vm_compute. repeat split. Qed.
 Lemma block_would_wait :
   exists bufs st, fanout_b BehBlock bufs st = None /\ fanout_b BehError bufs st <> None.
 Proof.
-  exists [[9]], [mk_sess 0 KFlv (mk_conn 1 [[[7]]] (Some ([[8]], O)) false [] 0) None 0].
+  exists [[9]], [mk_sess 0 KFlv (mk_conn 1 [[[7]]] (Some ([[8]], O)) false [] 0) None 0 [] 0].
   split; [reflexivity|discriminate].
 Qed.
 
@@ -997,29 +997,37 @@ Proof.
     exists xs, tail. repeat split; assumption.
 Qed.
 
-Theorem rtp_stream evs id cap :
+(* a packet on the wire is a published packet of a track that has an
+   interleaved channel, on the channel of that track *)
+Definition rtp_on_wire (su : setup) (evs : list event) (x : N * bytes) : Prop :=
+  (fst x = 0 /\ su_vtcp su = true \/ fst x = 2 /\ su_atcp su = true) /\ In (snd x) (pub_payloads evs).
+
+Lemma rtp_track_chan su b t : rtp_track b = Some t -> su_tcp su t = true ->
+  track_chan t = 0 /\ su_vtcp su = true \/ track_chan t = 2 /\ su_atcp su = true.
+Proof. intros _ Hs. destruct t; cbn in *; auto. Qed.
+
+Theorem rtp_stream evs id su cap :
   (forall b, In b (pub_payloads evs) -> lenN b < 65536) ->
-  let s := srun evs (sess_new id KRtp cap) in
+  let s := srun evs (sess_new id (KRtp su) cap) in
   exists pkts tail,
     c_wire (s_conn s) = concat (map (fun x => pack_interleaved (fst x) (snd x)) pkts) ++ tail /\
-    Forall (fun x => (fst x = 0 \/ fst x = 2) /\ In (snd x) (pub_payloads evs)) pkts /\
+    Forall (rtp_on_wire su evs) pkts /\
     parses rtp_parse1 (concat (map (fun x => pack_interleaved (fst x) (snd x)) pkts)) pkts /\
-    tail_ok KRtp evs s tail.
+    tail_ok (KRtp su) evs s tail.
 Proof.
   intros Hpay s.
   destruct (framed_single rtp_parse1 (fun x => pack_interleaved (fst x) (snd x))
-              (fun x => (fst x = 0 \/ fst x = 2) /\ In (snd x) (pub_payloads evs)) evs id KRtp cap)
+              (rtp_on_wire su evs) evs id (KRtp su) cap)
     as [xs [tail H]].
   - intros [ch raw] r [Hch Hin]. cbn [fst snd] in *. split.
     + unfold pack_interleaved. cbn. discriminate.
-    + apply rtp_parse1_pack; [destruct Hch; subst; lia|apply Hpay; assumption].
+    + apply rtp_parse1_pack; [destruct Hch as [[-> _]|[-> _]]; lia|apply Hpay; assumption].
   - intros u Hu. apply in_offered_inv in Hu. destruct Hu as [eager [bufs [Hev Hu]]].
     unfold offered_units in Hu. cbn [sess_units] in Hu.
-    destruct (rtp_route (concat bufs)) as [ch|] eqn:Hr; [|contradiction].
-    destruct Hu as [<-|[]]. exists (ch, concat bufs). cbn [fst snd]. repeat split.
-    + unfold rtp_route in Hr. destruct (nth_error (concat bufs) 1); [|discriminate].
-      destruct (n mod 128 =? 96); [inversion Hr; auto|].
-      destruct (n mod 128 =? 97); [inversion Hr; auto|discriminate].
+    destruct (rtp_track (concat bufs)) as [t|] eqn:Hr; [|contradiction].
+    destruct (su_tcp su t) eqn:Hs; [|contradiction].
+    destruct Hu as [<-|[]]. exists (track_chan t, concat bufs). unfold rtp_on_wire. cbn [fst snd]. repeat split.
+    + eapply rtp_track_chan; eassumption.
     + eapply in_pub_payloads. eassumption.
     + apply ubytes_single.
   - destruct H as [Hw [Hok [Hs [Hp [Ht Hq]]]]].
@@ -1059,15 +1067,16 @@ Qed.
 Lemma pack_interleaved_len ch b : lenN (pack_interleaved ch b) = 4 + lenN b.
 Proof. unfold pack_interleaved, lenN. rewrite !app_length, be_put_length. cbn [length]. lia. Qed.
 
-Lemma ws_units_rtp evs :
+Lemma ws_units_rtp su evs :
   (forall b, In b (pub_payloads evs) -> lenN b < 65536) ->
-  forall u, In u (offered KWsRtp evs) -> exists p, lenN p < 9223372036854775808 /\ ubytes u = ws_write p.
+  forall u, In u (offered (KWsRtp su) evs) -> exists p, lenN p < 9223372036854775808 /\ ubytes u = ws_write p.
 Proof.
   intros Hpay u Hu. apply in_offered_inv in Hu. destruct Hu as [eager [bufs [Hev Hu]]].
   unfold offered_units in Hu. cbn [sess_units] in Hu.
-  destruct (rtp_route (concat bufs)) as [ch|]; [|contradiction].
+  destruct (rtp_track (concat bufs)) as [t|]; [|contradiction].
+  destruct (su_tcp su t); [|contradiction].
   cbn in Hu. destruct Hu as [<-|[]].
-  exists (pack_interleaved ch (concat bufs)). split; [|reflexivity].
+  exists (pack_interleaved (track_chan t) (concat bufs)). split; [|reflexivity].
   rewrite pack_interleaved_len. pose proof (Hpay _ (in_pub_payloads _ _ _ Hev)). lia.
 Qed.
 
